@@ -127,11 +127,26 @@ def run(ctx, replay=None):
         # every tool at least once in the quick tier
         have = {t for t, s, n in runs}
         runs += [(t, ["vm1", "vm3"], "net1 net2") for t in PER_VM_TOOLS + PER_WORKER_TOOLS if t not in have]
+    # a worker whose restrictions exclude the selected vm variant (net5 supports no Win7 vm2) at every position of the
+    # worker list: the step still acts once on every COMPATIBLE worker
+    restricted = {}
+    if not replay:
+        orders = ["net1 net5 net2", "net5 net1 net2", "net1 net2 net5"]
+        picks = [(t, o) for t in ("boot", "shutdown", "get", "unset") for o in orders]
+        rng.shuffle(picks)
+        for t, o in picks[: (len(picks) if ctx.thorough else 4)]:
+            restricted[len(runs)] = {"vm2": "only Win7\n"}
+            runs.append((t, ["vm2"], o))
+    elif replay and replay["data"].get("vm_strs"):
+        restricted[0] = replay["data"]["vm_strs"]
     terms, obs_all = [], []
-    for tool, sel, nets in runs:
+    for ridx, (tool, sel, nets) in enumerate(runs):
         extra = rng.choice(USER_PARAMS[tool]) if rng.random() < 0.6 else None
         failing = rng.random() < 0.35
-        ret, calls = impl_tool(tool, {v: all_vms[v] for v in sel}, nets, rng, extra, failing)
+        vm_strs = restricted.get(ridx) or {v: all_vms[v] for v in sel}
+        ret, calls = impl_tool(tool, vm_strs, nets, rng, extra, failing)
+        if ridx in restricted:
+            nets = " ".join(w for w in nets.split() if w != "net5")      # the workers the step has to act on
         per_vm = tool in PER_VM_TOOLS
         obs, wrong = [], []
         # a step whose tests fail must report failure to the chain (Manu.run counts anything but None / 0)
@@ -173,7 +188,7 @@ def run(ctx, replay=None):
         ctx.obligation("monitor:once-per-selected-vm-and-worker", "monitor", not bad, f"{len(bad)} of {len(runs)} tool runs violate the rule")
         for k in sorted(bad)[:2]:
             ctx.fail(f"C20:tool:{runs[k][0]}", f"{runs[k][0]}: not exactly one execution per selected vm and compatible worker, or wrong parameters",
-                     {"tool": runs[k][0], "vms": runs[k][1], "nets": runs[k][2], "return": obs_all[k][0], "executions": obs_all[k][1],
+                     {"tool": runs[k][0], "vms": runs[k][1], "nets": runs[k][2], "vm_strs": restricted.get(k), "return": obs_all[k][0], "executions": obs_all[k][1],
                       "wrong": obs_all[k][2], "obligation": "monitor:once-per-selected-vm-and-worker"}, True)
         ctx.count(len(runs), sum(1 for t, s, n in runs if len(n.split()) > 1 and len(s) > 1))
         ctx.coverage["tools_run"] = sorted({t for t, s, n in runs})
